@@ -92,7 +92,8 @@ def gen_cases(rng, tier):
         tail = ['u' + d for d in down2] + ['t1500', 'q']
         held_at_request = bool(down) and rng.random() < 0.5
         pre = h1 + ([] if held_at_request else ['u' + d for d in down] + ['t%d' % rng.choice([1, 5, 40, 400])])
-        hist = ['t2'] + pre + ['W0,new', 'd%d' % F12, 't3', 'u%d' % F12] + ['t%d' % rng.randint(1, 30)] + \
+        # keys held at the request are released soon after it, or stay held for longer than the one-second fallback
+        hist = ['t2'] + pre + ['W0,new', 'd%d' % F12, 't3', 'u%d' % F12] + ['t%d' % rng.choice([rng.randint(1, 30), rng.randint(1, 30), 1600])] + \
                ['u' + d for d in down] + ['t1300', 't3000', 'q'] + h2 + tail
         newk = with_reload_key(new, 'lrld')
         cases.append({'id': 'S%d' % i, 'cfg': with_reload_key(old, 'lrld'), 'files': {'new': newk}, 'hist': hist, 'sub': 'rsim',
@@ -139,7 +140,7 @@ def gen_cases(rng, tier):
     return cases
 
 
-def strip(tr, drop=('RQ@',)):
+def strip(tr, drop=('RQ@', 'RA@')):
     # the twin's key is another custom action without effect on the keyboard: its message is not compared
     return [l for l in (tr or []) if not l.startswith(drop) and not (l.startswith('M@') and ' other ' in l)]
 
@@ -249,6 +250,14 @@ def post(all_results, run_impl, rng, tier, stats):
                 continue
             ms = [l for l in it if l.startswith('M@')]
             rel = [i for i, l in enumerate(ms) if ' reload ' in l]
+            # the reload waits until no output key is down: a key the user is holding is not let go under the finger
+            # (RA = the decision inputs of the millisecond in which the request was consumed)
+            ra = [re.match(r'RA@(\d+) keys_up=(\d) tsi=(\d+)', l) for l in it if l.startswith('RA@')]
+            if rel and ra and ra[0].group(2) == '0' and int(ra[0].group(3)) >= 1000:
+                # (keys_up=0 with a small idle count is the ordinary case of the last key going up in the very millisecond of the decision)
+                viol.append((c, it, None, 'the reload was applied at tick %s by the one-second fallback while output keys were down: %s ticks had been '
+                                          'counted as idle although a key was held' % (ra[0].group(1), ra[0].group(3))))
+                continue
             first_l = next((l for l in it if l.startswith('L@')), '')
             if not any(' reload ' in l for l in it if l.startswith('M@')) and ' req=0' in first_l and ' idle=0' in first_l:
                 # the old configuration never came to rest and no longer processes input (the request key was never seen):
